@@ -384,34 +384,7 @@ func c19(c *core.Ctx, r *core.Report) {
 	}
 
 	// ---- R5 IsRequired table
-	isReq := c.DeclaredMethod(prop, "IsRequired")
-	has := c.DeclaredMethod(tagArg, "Has")
-	if isReq == nil || has == nil {
-		r.Undecided("C19.R5", "role:IsRequired/Has", "", "Property.IsRequired / TagArg.Has not found")
-	} else {
-		bad := ""
-		for _, hv := range []bool{true, false} {
-			var asked []string
-			build := func() (absint.Oracle, []absint.Value, []absint.Value) {
-				asked = nil
-				t := newTbl(c)
-				t.callee[has] = func(ip *absint.Interp, a []absint.Value) absint.Value {
-					asked = append(asked, absint.Show(a[1])+" "+absint.Show(a[2]))
-					return absint.Bool(hv)
-				}
-				return t, []absint.Value{absint.NewTok("prop", "property")}, nil
-			}
-			check := func(ip *absint.Interp, out absint.Outcome) {
-				if out.Panic != nil || len(out.Ret) != 1 || out.Ret[0] != absint.Value(absint.Bool(!hv)) || len(asked) != 1 || !strings.EqualFold(asked[0], `"Required" ["false"]`) {
-					bad = fmt.Sprintf("Has=%v asked=%v => %s", hv, asked, showOutcome(out))
-				}
-			}
-			if _, u := runTable(c, isReq, build, check); u != "" {
-				bad = "left the model: " + u
-			}
-		}
-		r.Check(bad == "", "C19.R5", "IsRequired", c.FnPos(isReq), "IsRequired() is exactly !Has(Required, \"false\"): only an explicit required=false makes a point optional "+bad)
-	}
+	isRequiredRules(c, r, "C19.R5")
 
 	// ---- R6 nobody sets Required to "false"
 	nSet := 0
@@ -613,4 +586,40 @@ func sortComparatorIndex(fn *ssa.Function, base, idx ssa.Value) bool {
 		}
 	}
 	return used
+}
+
+// isRequiredRules: IsRequired() asks the arguments when it is asked (not a copy made earlier): it is exactly
+// !Has(Required, "false") at that moment.
+func isRequiredRules(c *core.Ctx, r *core.Report, rule string) {
+	prop := c.Named("component_definition", "Property")
+	tagArg := c.Named("component_definition", "TagArg")
+	// ---- R5 IsRequired table
+	isReq := c.DeclaredMethod(prop, "IsRequired")
+	has := c.DeclaredMethod(tagArg, "Has")
+	if isReq == nil || has == nil {
+		r.Undecided(rule, "role:IsRequired/Has", "", "Property.IsRequired / TagArg.Has not found")
+	} else {
+		bad := ""
+		for _, hv := range []bool{true, false} {
+			var asked []string
+			build := func() (absint.Oracle, []absint.Value, []absint.Value) {
+				asked = nil
+				t := newTbl(c)
+				t.callee[has] = func(ip *absint.Interp, a []absint.Value) absint.Value {
+					asked = append(asked, absint.Show(a[1])+" "+absint.Show(a[2]))
+					return absint.Bool(hv)
+				}
+				return t, []absint.Value{absint.NewTok("prop", "property")}, nil
+			}
+			check := func(ip *absint.Interp, out absint.Outcome) {
+				if out.Panic != nil || len(out.Ret) != 1 || out.Ret[0] != absint.Value(absint.Bool(!hv)) || len(asked) != 1 || !strings.EqualFold(asked[0], `"Required" ["false"]`) {
+					bad = fmt.Sprintf("Has=%v asked=%v => %s", hv, asked, showOutcome(out))
+				}
+			}
+			if _, u := runTable(c, isReq, build, check); u != "" {
+				bad = "left the model: " + u
+			}
+		}
+		r.Check(bad == "", rule, "IsRequired", c.FnPos(isReq), "IsRequired() is exactly !Has(Required, \"false\"): only an explicit required=false makes a point optional "+bad)
+	}
 }
